@@ -226,7 +226,9 @@ def verify_len_guard(eng, rows, site_line, callee_suffix, kind):
             for g in row.events[:idx]:
                 if g[0] == "call" and _sym.strip_all_generics(g[1]).split("::")[-1] == "get" and len(g[2]) > 1:
                     gb, ga = amount_of(("call", g[1], g[2]), "index")
-                    if ga is not None and _T.resolve_locals(eng, row.store, ga) == amt_r and _same_buffer(eng, row, gb, buf):
+                    is_len_of_slice = ((amt_r[0] == "call" and _sym.strip_all_generics(amt_r[1]).endswith("::len")) or (amt_r[0] == "un" and amt_r[1] == "len")) and any(
+                        s[0] == "call" and _sym.strip_all_generics(s[1]).split("::")[-1] == "get" for s in _T.subterms(amt_r))
+                    if ga is not None and (_T.resolve_locals(eng, row.store, ga) == amt_r or is_len_of_slice) and _same_buffer(eng, row, gb, buf):
                         gterm = [s for c in row.cond for s in _T.subterms(c[1]) if s[0] == "call" and s[1] == g[1] and s[2] == g[2]]
                         succ = any(c[0] == "variant" and c[3] and c[2] in ("Some", "Ok") and any(
                             s[0] == "call" and s[1] == g[1] for s in _T.subterms(c[1])) for c in row.cond)
